@@ -100,6 +100,7 @@ impl COp {
             COp::DeleteStream(t) => format!("rmS({})", t.short()),
             COp::RenameStream(t, nm) => format!("mvS({}->{nm})", t.short()),
             COp::PurgeStream(t) => format!("purgeS({})", t.short()),
+            COp::CreateTopic(st, i, nm, p) if *p == 999 => format!("mkT({}:{},{nm},max-size-too-small)", st.short(), o(i)),
             COp::CreateTopic(st, i, nm, p) => format!("mkT({}:{},{nm},p{p})", st.short(), o(i)),
             COp::DeleteTopic(st, t) => format!("rmT({}:{})", st.short(), t.short()),
             COp::UpdateTopic(st, t, nm, e) if *e == u64::MAX => format!("upT({}:{}->{nm},max-size-too-small)", st.short(), t.short()),
@@ -400,12 +401,19 @@ impl CatWorld {
                         c.create_topic(
                             &st.ident(),
                             name,
-                            *parts,
+                            if *parts == 999 { 1 } else { *parts },
                             if id.is_some() { CompressionAlgorithm::Gzip } else { CompressionAlgorithm::None },
                             if id.is_some() { Some(2) } else { None },
                             *id,
                             IggyExpiry::NeverExpire,
-                            if id.is_some() { MaxTopicSize::Custom(IggyByteSize::from(4_000_000_000u64)) } else { MaxTopicSize::Unlimited },
+                            // 999 partitions marks the invalid variant: a size limit below the segment size
+                            if *parts == 999 {
+                                MaxTopicSize::Custom(IggyByteSize::from(1000u64))
+                            } else if id.is_some() {
+                                MaxTopicSize::Custom(IggyByteSize::from(4_000_000_000u64))
+                            } else {
+                                MaxTopicSize::Unlimited
+                            },
                         )
                         .await?
                         .id,
